@@ -17,6 +17,8 @@ func genC07Rest(g *Gen) error {
 		cmpC    = "lib/compress/compress.go"
 		encF    = "lib/encoding/float.go"
 		wal     = "engine/wal.go"
+		encStr  = "lib/encoding/string.go"
+		encEnc  = "lib/encoding/encoding.go"
 	)
 	if err := g.srcDef(encTime, "scale", "src_scale"); err != nil {
 		return err
@@ -47,6 +49,22 @@ func genC07Rest(g *Gen) error {
 		return err
 	}
 	for _, f := range [][3]string{
+		{encStr, "String.encInit", "fp_strEncInit"},
+		{encStr, "String.Encoding", "fp_strEncoding"},
+		{encStr, "String.encodingWithSnappy", "fp_strEncodingWithSnappy"},
+		{encStr, "String.encodingWithZSTD", "fp_strEncodingWithZSTD"},
+		{encStr, "String.encodingWithLz4", "fp_strEncodingWithLz4"},
+		{encStr, "String.uncompressedData", "fp_strUncompressedData"},
+		{encStr, "String.decodingInit", "fp_strDecodingInit"},
+		{encStr, "String.Decoding", "fp_strDecoding"},
+		{encStr, "String.decodingWithSnappy", "fp_strDecodingWithSnappy"},
+		{encStr, "String.decodingWithZSTD", "fp_strDecodingWithZSTD"},
+		{encStr, "String.decodingWithLz4", "fp_strDecodingWithLz4"},
+		{encEnc, "packStringV2", "fp_packStringV2"},
+		{encEnc, "unpackStringV2", "fp_unpackStringV2"},
+		{encEnc, "unpackString", "fp_unpackString"},
+		{encEnc, "EncodeStringBlock", "fp_encodeStringBlock"},
+		{encEnc, "DecodeStringBlock", "fp_decodeStringBlock"},
 		{wal, "WAL.replayPhysicRecord", "fp_walReplayPhysicRecord"},
 		{wal, "WAL.writeBinary", "fp_walWriteBinary"},
 		{encTime, "Time.encodingInit", "fp_timeEncodingInit"},
